@@ -74,12 +74,37 @@ def dedup_case(c):
     return c
 
 
-def run_cases(prop, cases, ck, sh=None, spec="TV_Store", nshards=None, budget_ms=20000):
+def sample_stage(cases, budget):
+    """asks for the per-record matcher/scorer output (`stage`) on a sample of searches in small stores: those events
+    are validated against the full pipeline specification (WordMatch / TextMatch / Score / Highlight .tla)"""
+    cands = []
+    for c in cases:
+        nrec = 0
+        for op in c.ops:
+            if op.get("op") == "add":
+                nrec += 1
+            elif op.get("op") in ("clear", "new"):
+                nrec = 0
+            elif op.get("op") == "search" and nrec <= 6 and len(op.get("q", [])) <= 24:
+                cands.append(op)
+    if not cands or budget <= 0:
+        return 0
+    step = max(1, len(cands) // budget)
+    n = 0
+    for op in cands[::step][:budget]:
+        if "stage" not in op["want"]:
+            op["want"] = list(op["want"]) + ["stage"]
+        n += 1
+    return n
+
+
+def run_cases(prop, cases, ck, sh=None, spec="TV_Store", nshards=None, budget_ms=20000, stage_budget=0):
     """replays the cases on the real code (in parallel), validates every trace with TLC, returns the merged result"""
     work = os.path.join(OUT, "work", prop)
     shutil.rmtree(work, ignore_errors=True)
     os.makedirs(work)
     cases = [dedup_case(c) for c in cases]
+    nstage = sample_stage(cases, stage_budget) if spec == "TV_Store" else 0
     nshards = nshards or max(1, min(14, len(cases)))
     shards = shard_cases(cases, nshards)
     scripts, traces = [], []
@@ -150,6 +175,7 @@ def run_cases(prop, cases, ck, sh=None, spec="TV_Store", nshards=None, budget_ms
             elif o != "case":
                 h = hashlib.sha1(("|".join(state) + "#" + json.dumps(op, sort_keys=True)).encode()).hexdigest()
                 sigs.add(h)
+    merged["stage_sampled"] = nstage
     merged["evaluations"] = nsearch
     merged["distinct"] = len(sigs)
     merged["cases"] = len(cases)
@@ -268,6 +294,7 @@ def verdict(prop, tier, seed, merged, l1, t0, level_extra=None, spec="TV_Store")
             "trace_events": merged["events"], "cases": merged["cases"],
             "predicate_evaluations_per_property": merged["cnt"],
             "drift_notes": len(merged["drift"]),
+            "pipeline_conformance_events": merged.get("stage_sampled", 0),
             "violations_of_other_properties_seen": others,
             "exhaustive": False,
             "replay_s": round(merged["t_replay"], 1), "tv_s": round(merged["t_tv"], 1),
@@ -299,6 +326,16 @@ def verdict(prop, tier, seed, merged, l1, t0, level_extra=None, spec="TV_Store")
 L1 = {
     # property -> {tier -> [(module, cfg, workers)]}
     "C06": {"quick": [("MC_LimitSort", "MC_LimitSort.cfg", 8)], "thorough": [("MC_LimitSort", "MC_LimitSort_t.cfg", 14), ("MC_Store", "MC_Store_fixed.cfg", 12)]},
+    "C01": {"quick": [("MC_TextMatch", "MC_TextMatch_arith_q.cfg", 12), ("MC_Store", "MC_Store_fixed.cfg", 12)],
+            "thorough": [("MC_TextMatch", "MC_TextMatch_arith.cfg", 14), ("MC_WordMatch", "MC_WordMatch_c04.cfg", 14), ("MC_Store", "MC_Store_fixed_t.cfg", 14)]},
+    "C03": {"quick": [("MC_WordMatch", "MC_WordMatch_c03_q.cfg", 12)], "thorough": [("MC_WordMatch", "MC_WordMatch_c03_t.cfg", 14)]},
+    "C04": {"quick": [("MC_WordMatch", "MC_WordMatch_c04_q.cfg", 12)], "thorough": [("MC_WordMatch", "MC_WordMatch_c04_t.cfg", 14)]},
+    "C05": {"quick": [("MC_TextMatch", "MC_TextMatch_arith_q.cfg", 12)], "thorough": [("MC_TextMatch", "MC_TextMatch_arith.cfg", 14)]},
+    "C09": {"quick": [("MC_TextMatch", "MC_TextMatch_joined_q.cfg", 12), ("MC_TextMatch", "MC_TextMatch_arith_q.cfg", 12)],
+            "thorough": [("MC_TextMatch", "MC_TextMatch_joined.cfg", 14), ("MC_TextMatch", "MC_TextMatch_arith.cfg", 14)]},
+    "C13": {"quick": [("MC_TextMatch", "MC_TextMatch_whole_q.cfg", 12)], "thorough": [("MC_TextMatch", "MC_TextMatch_whole.cfg", 14)]},
+    "C14": {"quick": [("MC_TextMatch", "MC_TextMatch_split_q.cfg", 12), ("MC_TextMatch", "MC_TextMatch_joined_q.cfg", 12)],
+            "thorough": [("MC_TextMatch", "MC_TextMatch_split.cfg", 14), ("MC_TextMatch", "MC_TextMatch_joined.cfg", 14)]},
     "C10": {"quick": [("MC_Store", "MC_Store_fixed.cfg", 12)], "thorough": [("MC_Store", "MC_Store_fixed_t.cfg", 14)]},
     "C12": {"quick": [("MC_Store", "MC_Store_fixed.cfg", 12)], "thorough": [("MC_Store", "MC_Store_fixed_t.cfg", 14)]},
     "C20": {"quick": [("MC_Registry", "MC_Registry.cfg", 12)], "thorough": [("MC_Registry", "MC_Registry_t.cfg", 14)]},
@@ -397,7 +434,7 @@ def run_property(prop, tier, seed):
     rnd = random.Random(seed)
     pools, toks = build_pools(ck, tier, rnd)
     cases = cases_for(prop, tier, seed, pools, toks, ck)
-    merged = run_cases(prop, cases, ck, sh)
+    merged = run_cases(prop, cases, ck, sh, stage_budget=sizes(tier, 200, 4000))
     return verdict(prop, tier, seed, merged, l1, t0)
 
 
